@@ -121,6 +121,11 @@ func c17Alphabet() []c17Patch {
 		{"replace{}", j(map[string]interface{}{"action": "replace", "document": map[string]interface{}{}})},
 		{"json-add-x", j(fx.JSONPatch(fx.JOp("add", "/x", "v1")))}, {"json-replace-x", j(fx.JSONPatch(fx.JOp("replace", "/x", map[string]interface{}{"n": 2.0})))},
 		{"json-add-y-add-x", j(fx.JSONPatch(fx.JOp("add", "/y", []interface{}{1.0}), fx.JOp("add", "/x", "v3")))},
+		// removal / move / copy of top-level members (fail when the member is absent; otherwise the member must be gone / renamed)
+		{"json-remove-x", j(fx.JSONPatch(fx.JOp("remove", "/x", nil)))},
+		{"json-move-x-y", j(fx.JSONPatch(map[string]interface{}{"op": "move", "from": "/x", "path": "/y"}))},
+		{"json-copy-y-x", j(fx.JSONPatch(map[string]interface{}{"op": "copy", "from": "/y", "path": "/x"}))},
+		{"json-remove-aliases", j(fx.JSONPatch(fx.JOp("remove", "/alsoKnownAs", nil)))},
 		{"FAIL-json-remove-absent", j(fx.JSONPatch(fx.JOp("remove", "/absent", nil)))},
 		{"FAIL-json-add-then-remove-absent", j(fx.JSONPatch(fx.JOp("add", "/z", 1.0), fx.JOp("remove", "/absent", nil)))},
 		{"FAIL-unknown-action", `{"action":"frobnicate","x":1}`},
@@ -130,7 +135,7 @@ func c17Alphabet() []c17Patch {
 
 func c17(r *hx.Run) {
 	fx.Quiet()
-	r.Rule = "breadth-first search from the empty document: a transition applies one patch of a 32-patch alphabet (add/replace-in-place/remove of 2 keys, 2 services, 2 aliases, replace, JSON patches, 4 failing patches) through the real DocumentComposer; states are canonical documents, explored to depth 3 (thorough 4); in every state every patch list of length <=2 (thorough 3) is applied and checked for purity (input equals a snapshot, also after the result is mutated), determinism, atomicity (failing member => (nil, err); otherwise equal to the fold of singletons) and equality with the ordered-map reference ref/doc; every reachable document with non-empty sections must survive PatchesFromDocument -> ApplyPatches({}); documents with 1..9 entries per section x adds mixing new and existing ids in every order / removals / pairs (slice-growth boundaries) against ref/doc; every single patch is also built through the library's constructor for its action (patch.New*Patch) and through FromBytes/Bytes and must have the same effect in every state; the same round trip for ~330 well-formed documents carrying every content class (format verbs such as %s, quotes, backslashes, control / non-ASCII / astral characters, numbers, null, nested containers) as member value, member name, nested value, service / key member, endpoint and alias. Non-trivial: distinct (state, list) pairs whose reference result differs from the input state or fails."
+	r.Rule = "breadth-first search from the empty document: a transition applies one patch of a 36-patch alphabet (add/replace-in-place/remove of 2 keys, 2 services, 2 aliases, replace, JSON patches, 4 failing patches) through the real DocumentComposer; states are canonical documents, explored to depth 3 (thorough 4); in every state every single patch and every list of two over a 23-patch sub-alphabet (thorough: every list of length <=3 over all 36) is applied and checked for purity (input equals a snapshot, also after the result is mutated), determinism, atomicity (failing member => (nil, err); otherwise equal to the fold of singletons) and equality with the ordered-map reference ref/doc; every reachable document with non-empty sections must survive PatchesFromDocument -> ApplyPatches({}); documents with 1..9 entries per section x adds mixing new and existing ids in every order / removals / pairs (slice-growth boundaries) against ref/doc; every single patch is also built through the library's constructor for its action (patch.New*Patch) and through FromBytes/Bytes and must have the same effect in every state; the same round trip for ~330 well-formed documents carrying every content class (format verbs such as %s, quotes, backslashes, control / non-ASCII / astral characters, numbers, null, nested containers) as member value, member name, nested value, service / key member, endpoint and alias. Non-trivial: distinct (state, list) pairs whose reference result differs from the input state or fails."
 	alpha := c17Alphabet()
 	composer := doccomposer.New()
 	maxDepth := 3
@@ -192,8 +197,21 @@ func c17(r *hx.Run) {
 	r.States = int64(len(states))
 	r.Extra["bfs_depth"] = maxDepth
 	var lists [][]int
+	// quick: lists of two are formed over the alphabet without near-duplicates of other members (singletons use everything);
+	// thorough: the whole alphabet at every length
+	pairSkip := map[string]bool{"+k1-": true, "+s1-": true, "-k9": true, "-s9": true, "-a9": true, "json-replace-x": true, "replace{}": true, "+{a1,a2}": true,
+		"FAIL-json-add-then-remove-absent": true, "FAIL-missing-value": true, "json-copy-y-x": true, "+a2": true, "+{s1,s2}": true}
 	for l := 1; l <= listLen; l++ {
-		tuples(len(alpha), l, func(idx []int) { lists = append(lists, append([]int(nil), idx...)) })
+		tuples(len(alpha), l, func(idx []int) {
+			if r.Tier == "quick" && l > 1 {
+				for _, i := range idx {
+					if pairSkip[alpha[i].name] {
+						return
+					}
+				}
+			}
+			lists = append(lists, append([]int(nil), idx...))
+		})
 	}
 	var mu sync.Mutex
 	outcomes := map[string]bool{}
